@@ -15,12 +15,13 @@ def nodupNat : List Nat → Bool
   | x :: xs => !xs.contains x && nodupNat xs
 
 /-- well-formed genesis: at least one validator, distinct operators and keys, every validator with at least one
-    unit of voting power, room for all of them, sane parameters -/
+    unit of voting power, room for all of them, sane parameters, total voting power within CometBFT's maximum -/
 def Genesis.wf (g : Genesis) : Bool :=
   !g.vals.isEmpty && nodupNat (g.vals.map (·.op)) && nodupNat (g.vals.map (·.key)) &&
   g.vals.all (fun v => decide (v.tokens ≥ PR)) && decide (g.vals.length ≤ g.maxVals) &&
   decide (g.unbond > 0) && decide (g.window > 0) && decide (0 ≤ g.minSigned) && decide (g.minSigned ≤ g.window) &&
-  decide (g.jailNs ≥ 0) && decide (0 ≤ g.slashDown) && decide (g.slashDown ≤ E18) && decide (0 ≤ g.minComm) && decide (g.minComm ≤ E18)
+  decide (g.jailNs ≥ 0) && decide (0 ≤ g.slashDown) && decide (g.slashDown ≤ E18) && decide (0 ≤ g.minComm) && decide (g.minComm ≤ E18) &&
+  decide (sumInts (g.vals.map (fun v => ((powerOf v.tokens : Nat) : Int))) ≤ maxTotalPower)
 
 /-- the validator set whose votes block `h` carries (CometBFT applies a block's updates two heights later) -/
 def voteSetFor (c0 : CSet) (cs : List CSet) (h : Nat) : CSet :=
